@@ -578,21 +578,20 @@ func (s *scen) finish(watchdog time.Duration) (hung []int) {
 		names = append(names, n)
 	}
 	sort.Strings(names)
-	var chans []chan struct{}
-	for _, n := range names {
-		chans = append(chans, s.closeSide(n))
-	}
 	deadline := time.Now().Add(watchdog)
+	// one side after the other: the order of the teardown is then visible in the trace
+	for _, n := range names {
+		if !waitCh(s.closeSide(n), time.Until(deadline)) {
+			hung = append(hung, -1)
+		}
+	}
 	for _, c := range cs {
 		if !waitCh(c.returned, time.Until(deadline)) {
 			hung = append(hung, c.id)
 		}
 	}
-	chans = append(chans, s.closeSide("server"))
-	for _, ch := range chans {
-		if !waitCh(ch, time.Until(deadline)+2*time.Second) {
-			hung = append(hung, -1)
-		}
+	if !waitCh(s.closeSide("server"), time.Until(deadline)+2*time.Second) {
+		hung = append(hung, -1)
 	}
 	for _, c := range cs {
 		if c.cancel != nil {
